@@ -1,9 +1,9 @@
 SPECIFICATION SimSpec
 CONSTANTS
   Nodes = {1, 2, 3}
-  Epoch = 1
-  JoinSet = {1, 2, 3}
-  RemainSet = {}
+  Epoch = 2
+  JoinSet = {}
+  RemainSet = {1, 2, 3}
   LeaveSet = {}
   Leader = 1
   Thr = 2
@@ -16,6 +16,6 @@ CONSTANTS
   PermuteLists = TRUE
   AtomicGossip = FALSE
   AtomicExec = FALSE
-  Depth = 120
+  Depth = 200
   MaxDup = 4
 CHECK_DEADLOCK FALSE
